@@ -226,8 +226,12 @@ def binop(ip, op, a, b):
     ka, kb = numkind(ip, a), numkind(ip, b)
     if ka and kb:
         return num_binop(ip, op, a, b, ka, kb)
-    sa = kind_of(ip, a)
-    sb = kind_of(ip, b)
+    sa = ka or kind_of(ip, a)
+    sb = kb or kind_of(ip, b)
+    if sa is None and isinstance(a, S):
+        sa = resolve_kind(ip, a, ('str', 'list', 'date'))
+    if sb is None and isinstance(b, S):
+        sb = resolve_kind(ip, b, ('str', 'list', 'date'))
     if op == 'Add' and sa == 'str' and sb == 'str':
         return T(z3.Concat(str_term(ip, a), str_term(ip, b)))
     if op == 'Mult' and sa == 'str' and kb == 'int':
